@@ -119,6 +119,19 @@ func (s *Staking) processDoubleSignV5(config *params.YouParams, currentDB *state
 	if len(doubleSign.Signs) < 2 {
 		return
 	}
+	// a double sign needs signatures over at least two different hashes: one vote listed
+	// twice (or the same hash signed for two steps, which gives the same signature) is not
+	// an equivocation and must not cost an honest validator its stake.
+	distinct := false
+	for _, info := range doubleSign.Signs[1:] {
+		if info != nil && doubleSign.Signs[0] != nil && info.Hash != doubleSign.Signs[0].Hash {
+			distinct = true
+			break
+		}
+	}
+	if !distinct {
+		return
+	}
 
 	log.Info("slashing", "type", EvidenceTypeDoubleSignV5, "parent", parentHeight, "eRound", doubleSign.Round, "eRoundIndex", doubleSign.RoundIndex, "sinerIdx", doubleSign.SignerIdx, "signs", len(doubleSign.Signs))
 	switch {
